@@ -154,16 +154,21 @@ def _fix_variable_names(
 def _fix_undefined_variables(source: str, variables: Collection[str]) -> str:
     variables = set(variables)
 
-    lines = source.splitlines()
+    # Lines as the ast counts them; str.splitlines() also splits on form feeds and unicode separators
+    lines = re.split(r"\r\n|\r|\n", source)
+    if lines[-1] == "":
+        lines.pop()
     change_count = -len(lines)
 
     # Insert below the module docstring and the __future__ imports, which must stay first
     lineno = 0
     for i, node in enumerate(core.parse(source).body):
         is_docstring = i == 0 and core.match_template(node, ast.Expr(value=ast.Constant(value=str)))
-        if not is_docstring and not core.match_template(node, ast.ImportFrom(module="__future__")):
+        is_header = is_docstring or core.match_template(node, ast.ImportFrom(module="__future__"))
+        # ...and below whatever shares a line with them (header; statement)
+        if not is_header and node.lineno > lineno:
             break
-        lineno = node.end_lineno
+        lineno = max(lineno, node.end_lineno)
 
     # ...and below the comments that follow them, or that the file starts with
     while lineno < len(lines) and lines[lineno].startswith("#"):
